@@ -89,3 +89,44 @@ Theorem C05_reference_position_example :
   snd (Sema.check E (Ast.ECall (Ast.Build_tpos 1 1 1) "nosuch" [Ast.EVar (Ast.Build_tpos 1 8 8) "zzz"])) = [Sema.mkdiag (Ast.Build_tpos 1 1 1) Sema.DUndefFunc].
 Proof. exact SemaVisit.undefined_function_hides_arguments. Qed.
 Print Assumptions C05_reference_position_example.
+
+(* --- references from the default of a workflow_call input ------------------
+   the rule checks the defaults in declaration order against the inputs declared
+   so far (Wf/InputDefaults.v, tied to the linter by the cases_defaults stream) *)
+From AL Require Wf.InputDefaults.
+
+(* what the code does: reported iff no input declared strictly earlier has the name *)
+Theorem C05_input_default_reported_iff_not_declared_earlier :
+  forall (inputs : list InputDefaults.decl) i r,
+  i < List.length inputs -> In r (snd (nth i inputs (""%string, []))) ->
+  exists row, nth_error (InputDefaults.visit [] inputs) i = Some row /\
+    forall j, nth_error (snd (nth i inputs (""%string, []))) j = Some r ->
+      nth_error row j = Some (negb (InputDefaults.mem r (firstn i (InputDefaults.names inputs)))).
+Proof. exact InputDefaults.visit_reports_iff_not_declared_earlier. Qed.
+Print Assumptions C05_input_default_reported_iff_not_declared_earlier.
+
+(* no false negative there: an undeclared name is always reported *)
+Theorem C05_input_default_undeclared_reported : forall inputs,
+  Forall2 (fun row d => forall j r, nth_error (snd d) j = Some r ->
+                          InputDefaults.mem r (InputDefaults.names inputs) = false -> nth_error row j = Some true)
+          (InputDefaults.visit [] inputs) inputs.
+Proof. exact InputDefaults.visit_undeclared_reported. Qed.
+Print Assumptions C05_input_default_undeclared_reported.
+
+(* against the property (inputs sees exactly the declared names) the code is
+   refuted: `first: {default: ${{ inputs.second }}}` with `second` declared after
+   it is reported - the recorded finding; the loop that registers all inputs
+   before it checks the defaults is the property *)
+Theorem C05_input_default_declared_reported_refuted :
+  exists inputs i j r, InputDefaults.mem r (InputDefaults.names inputs) = true /\
+    nth_error (snd (nth i inputs (""%string, []))) j = Some r /\
+    exists row, nth_error (InputDefaults.visit [] inputs) i = Some row /\ nth_error row j = Some true.
+Proof. exact InputDefaults.visit_declared_reported_refuted. Qed.
+Print Assumptions C05_input_default_declared_reported_refuted.
+
+Theorem C05_input_default_repaired : forall inputs,
+  Forall2 (fun row d => forall j r, nth_error (snd d) j = Some r ->
+                          nth_error row j = Some (negb (InputDefaults.mem r (InputDefaults.names inputs))))
+          (InputDefaults.visit_repaired inputs) inputs.
+Proof. exact InputDefaults.visit_repaired_spec. Qed.
+Print Assumptions C05_input_default_repaired.
